@@ -1,6 +1,7 @@
 // C06 -- Ed25519: RFC 8032 signing, complete and sound strict verification, key conversion.
 // Oracle: ref/ed25519.hpp (RFC 8032 on big integers) + the acceptance predicate of the property.
 #include "vh_main.hpp"
+#include "giant.hpp"
 #include "vh_rc.hpp"
 #include "ed25519.hpp"
 #include "x25519.hpp"
@@ -216,7 +217,68 @@ void explore_sweep(Ctx &ctx) {
     for (uint64_t k = 1; k <= 15; k++) { Bytes seed = r.bytes(32), m = r.bytes(20); if (!ctx.mine(idx++)) continue; ACase c = make_adv(1, seed, m, false, k - 1, 0); exec_case(ctx, c, run_adv, mix64(1, k), true); }
 }
 
+// ------------------------------------------------------------------ messages of 4 GiB and more (thorough tier, non-sanitizer build, first round)
+// RFC 8032 hashes the message twice (r = H(prefix || M), k = H(R || A || M)); everything else is arithmetic on 32-byte values.  The two
+// hashes over the sparse message are recomputed with the library's streaming SHA-512 (its correctness over such lengths is C04's claim),
+// the arithmetic by the reference model; the composition is validated against the full reference model on a short message in the same run.
+struct GSCase { int mode; size_t len; KV kv() const { KV k; k.s("kind", "giant_sign").u("mode", mode).u("len", len); return k; } };   // 0 pure detached, 1 prehashed multi-part
+uint64_t g_giant_skipped = 0;
+Bytes sha512_parts(std::initializer_list<std::pair<const uint8_t *, size_t>> parts) {
+    crypto_hash_sha512_state st; crypto_hash_sha512_init(&st);
+    for (auto &p : parts) crypto_hash_sha512_update(&st, p.first, p.second);
+    Bytes h(64); crypto_hash_sha512_final(&st, h.data()); return h;
+}
+Bytes composed_sign(const uint8_t *m, size_t mlen, const Bytes &sk64, bool ph) {
+    Bytes h = ref::sha512(ref::sub(sk64, 0, 32));
+    U a = ref::u_from_le(ref::ed25519_clamp(ref::sub(h, 0, 32)));
+    Bytes prefix = ref::sub(h, 32, 32), A = ref::sub(sk64, 32, 32), dom = ref::ed25519_dom2(ph);
+    Bytes phm; if (ph) { phm = sha512_parts({ { m, mlen } }); m = phm.data(); mlen = 64; }
+    U r = ref::sc_reduce(ref::u_from_le(sha512_parts({ { D(dom), dom.size() }, { prefix.data(), 32 }, { m, mlen } })));
+    Bytes R = ref::pt_encode(ref::pt_mul(r, ref::ED_B()));
+    U k = ref::sc_reduce(ref::u_from_le(sha512_parts({ { D(dom), dom.size() }, { R.data(), 32 }, { A.data(), 32 }, { m, mlen } })));
+    return ref::cat(R, ref::sc_to_bytes32(ref::sc_add(r, ref::sc_mul(k, a))));
+}
+bool run_giant_sign(const GSCase &c, std::string &msg) {
+    set_mask(F_ALL);
+    Bytes seed(32); for (int i = 0; i < 32; i++) seed[(size_t) i] = (uint8_t) (i * 9 + 4);
+    Bytes pk, sk; ref::ed25519_seed_keypair(seed, pk, sk);
+    {   // the composition against the full model, short message
+        Bytes sm = { 9, 8, 7, 6, 5 };
+        if (composed_sign(sm.data(), sm.size(), sk, c.mode == 1) != (c.mode == 1 ? ref::ed25519ph_sign(sm, sk) : ref::ed25519_sign(sm, sk))) { msg = "harness self-check: the composed Ed25519 model differs from the reference model"; return false; }
+    }
+    giant::Map M(c.len); if (!M.ok()) { g_giant_skipped++; return true; }
+    M.poke();
+    unsigned char sig[64]; unsigned long long sl = 0; char b[300];
+    if (c.mode == 0) {
+        if (crypto_sign_detached(sig, &sl, M.p, c.len, sk.data()) != 0 || sl != 64) { snprintf(b, sizeof b, "crypto_sign_detached over %zu bytes failed (signature length %llu)", c.len, sl); msg = b; return false; }
+    } else {
+        crypto_sign_state st; crypto_sign_init(&st);
+        const size_t piece = ((size_t) 1 << 31) + 9;       // pieces whose own length needs 32 bits
+        for (size_t off = 0; off < c.len; off += piece) crypto_sign_update(&st, M.p + off, std::min(piece, c.len - off));
+        if (crypto_sign_final_create(&st, sig, &sl, sk.data()) != 0 || sl != 64) { msg = "crypto_sign_final_create failed after a 4 GiB message"; return false; }
+    }
+    Bytes want = composed_sign(M.p, c.len, sk, c.mode == 1);
+    if (memcmp(sig, want.data(), 64) != 0) { snprintf(b, sizeof b, "%s over a %zu-byte message differs from RFC 8032", c.mode ? "crypto_sign_init/update/final_create (Ed25519ph)" : "crypto_sign_detached", c.len); msg = b; return false; }
+    // verification accepts it, and rejects the message with one bit flipped beyond byte 2^32
+    auto verify = [&]() -> int {
+        if (c.mode == 0) return crypto_sign_verify_detached(sig, M.p, c.len, pk.data());
+        crypto_sign_state st; crypto_sign_init(&st); crypto_sign_update(&st, M.p, c.len); return crypto_sign_final_verify(&st, sig, pk.data());
+    };
+    if (verify() != 0) { snprintf(b, sizeof b, "verification rejects the genuine signature of a %zu-byte message (mode %d)", c.len, c.mode); msg = b; return false; }
+    size_t pos = ((size_t) 1 << 32) + 3; M.p[pos] ^= 0x20;
+    int v = verify(); M.p[pos] ^= 0x20;
+    if (v == 0) { snprintf(b, sizeof b, "verification accepts a %zu-byte message with a bit flipped at byte %zu (mode %d)", c.len, pos, c.mode); msg = b; return false; }
+    return true;
+}
+void explore_giant_sign(Ctx &ctx) {
+    if (!ctx.thorough() || !giant::fast_build() || !giant::first_round()) { ctx.notes["giant_sign"] = "thorough tier, non-sanitizer build, first round only"; return; }
+    uint64_t idx = 0;
+    for (int mode = 0; mode < 2; mode++) { if (!ctx.mine(idx++)) continue; GSCase c{ mode, ((size_t) 1 << 32) + 21 + (size_t) mode }; exec_case(ctx, c, run_giant_sign, mix64(mode, c.len), true); }
+    ctx.notes["giant_sign_skipped_no_memory"] = std::to_string(g_giant_skipped);
+}
+
 bool replay(const KV &k, std::string &msg) {
+    if (k.gs("kind") == "giant_sign") { GSCase c{ (int) k.gu("mode"), (size_t) k.gu("len") }; return run_giant_sign(c, msg); }
     if (k.gs("kind") == "honest") { HCase c{ k.gb("seed"), k.gu("mseed"), (size_t) k.gu("mlen"), {} }; std::string cs = k.gs("chunks"); if (cs != "-") { size_t p = 0; while (p < cs.size()) { size_t e = cs.find(',', p); if (e == std::string::npos) e = cs.size(); c.chunks.push_back(strtoull(cs.substr(p, e - p).c_str(), nullptr, 10)); p = e + 1; } } return run_honest(c, msg); }
     ACase c; c.kind = 0; for (int i = 0; i < 12; i++) if (k.gs("how") == AK[i]) c.kind = i;
     c.sig = k.gb("sig"); c.msg = k.gb("msg"); c.pk = k.gb("pk"); c.ph = k.gu("ph") != 0;
@@ -225,4 +287,4 @@ bool replay(const KV &k, std::string &msg) {
 
 }  // namespace
 
-std::vector<Sub> vh_subs() { return { { "honest", explore_honest, replay }, { "sweep", explore_sweep, replay }, { "adversarial", explore_adversarial, replay } }; }
+std::vector<Sub> vh_subs() { return { { "honest", explore_honest, replay }, { "sweep", explore_sweep, replay }, { "adversarial", explore_adversarial, replay }, { "giant_sign", explore_giant_sign, replay } }; }
